@@ -109,7 +109,7 @@ SWEEP_PROGRAMS = ["{ int32_t i = RsV; RdV = (i++ > 0) ? clz32(i) : 6; ReV = i; }
                   "{ int32_t i = RsV; int32_t j = 1; if (i-- > 2) { j = clo32(i); } RdV = j + clz32(i++); ReV = i; }"]
 
 
-def sweep_worker(k, rounds):
+def sweep_worker(k, rounds, offset=0):
     """temporary numbering is never reset on a Compiler: the same programs are compiled again and again on one fresh
     compiler so that their pending operations get every number 0 .. ~3*rounds (9|10, 99|100 boundaries included)"""
     from .. import boot, diff
@@ -120,6 +120,8 @@ def sweep_worker(k, rounds):
     resolver = diff.make_resolver(c)
     subs = diff.bundled_subs()
     text = SWEEP_PROGRAMS[k]
+    for _ in range(offset):
+        progcheck.try_compile(c, "{ RdV = clz32(RsV); }")    # shifts the numbering by one
     ast = diff.parse_c(text)
     states = diff.simple_states(operands_closure(ast, subs), 4, 23)
     for r_ in range(rounds):
@@ -166,7 +168,7 @@ def run_check(ctx):
                       nontrivial=_nontrivial, classify=_classify, native_all=(ctx.tier == "thorough"))
     progcheck.judge_shapes(ctx, "C06", FINDING_SHAPES)
     rounds = 400 if ctx.tier == "thorough" else 60
-    run.run_sharded(ctx, sweep_worker, [(k, rounds) for k in range(len(SWEEP_PROGRAMS))], procs=3)
+    run.run_sharded(ctx, sweep_worker, [(k, rounds, off) for k in range(len(SWEEP_PROGRAMS)) for off in (0, 1, 2)], procs=9)
     ctx.extra["const_arm_templates"] = len(CONST_ARM_TEMPLATES)
     run.run_sharded(ctx, template_worker, [(CONST_ARM_TEMPLATES[i::16],) for i in range(16)])
     for c in ("class:hybrid:post", "class:hybrid:call", "class:hybrid:stmtexpr", "class:hybrid in if-condition",
